@@ -18,6 +18,11 @@ CLAIMED = {
    text="Partial. Lean 4: bundle members are exactly the small by-value data parameters of the direction; sizes never increase along the bundle; members of equal size keep declaration order (stability); the bundle buffer is the plain concatenation of member images and its length is the sum of the member sizes; the input bundle exists iff there are two or more smalls and is then the very first argument. Refuted: object-bearing small structs inside a bundle (handle bytes in the data buffer). "
         "Tie/oracle: the bytes every real stub puts into its input buffers and every real skeleton returns in its output buffers (all 9 pairings) are compared with the reference encoding computed by the Lean driver from the same values (there is no second hand-written encoder).",
    note=TB + " The per-backend visitors (slot writes/reads in C, C++, Rust text) are tied by executing the real generated code, not modelled statement by statement; gcc/g++/rustc and the hand-written runtime headers under /repo/tests are trusted."),
+ "C04": dict(engine="lean+bench perturbed envelopes (ASan/UBSan)", technique="Lean 4 proof (skeleton guard model: dispatch, counts word, size guards, guard indices in bounds) + perturbed envelopes delivered to the real skeletons under sanitizers",
+   text="Lean 4: in the skeleton model an envelope whose counts word differs from the method's, or with a guarded (fixed-size) slot of a different size, is never served; an op-code of neither the interface nor its ancestors and an optional method without implementation give INVALID; conversely everything served carried exactly the method's counts word and sizes; every size guard reads a slot index below the number of slots of the method. "
+        "Tie/oracle: for each method and each of the C, C++ and Rust skeletons (ASan/UBSan build) the well-formed envelope recorded from a real stub call is perturbed (every counts nibble +-1, 0, 15; same-total shifts and swaps between classes; every guarded size 0/n-1/n+1/2^31; foreign, out-of-range and modifier-bit ops; combined) and delivered in an exact-size argument array with exact-size buffers; status, implementation entry and sanitizer faults are observed and compared with the model; a well-formed follow-up call to the same object must be served normally. "
+        "One genuine defect found this way was repaired (Rust skeleton built a slice from a null argument pointer).",
+   note=TB + " The per-backend visitors are tied by executing the real generated code, not modelled statement by statement; gcc/g++/rustc, sanitizers and the runtime headers under /repo/tests are trusted."),
  "C05": dict(engine="lean+bench 3x3", technique="Lean 4 proof (proxy ownership discipline of the C++ backend incl. arrays of any length) + counting objects through the real generated code",
    text="Partial. Lean 4: in the model of proxy_base.hpp (adopt / extract / consume / destructor) the C++ skeleton's wrap-call-extract sequence for input objects (single and arrays of any length) and its output-proxy sequence issue no retain and no release, and the stub adopts returned objects on success only; a missing extract is shown to release the caller's object. C and Rust visitors perform no count operation (plain copies, ManuallyDrop / take). "
         "Tie/oracle: harness-owned counting objects (null, non-null, aliased; direct, in arrays, in structs) are passed through all 9 pairings for success and error returns; after caller and implementation drop what they hold every count must be back at its start and no output object may be adopted on a failed call.",
@@ -44,6 +49,10 @@ CLAIMED = {
         "the backend's fatal paths cannot fire when counts fit the counts word. Acceptance of whole file sets (graph passes on acyclic inputs, symbol lookup across the include closure) is tied, not proved: valid generated file sets over the full grammar "
         "are run through the real binary for 5-6 backends under random flag sets, as generated, with declarations permuted, and with all declarations merged into the main file; every variant must exit 0 with output, and the model must agree.",
    note=TB + " Completeness of the graph passes is sampled, not proved."),
+ "C11": dict(engine="lean+real compilers", technique="Lean 4 for the two pieces that are logic (definition-before-use order, C++ base list); everything else CHECKED by gcc/clang/g++/clang++/rustc/javac on the real output (not a proof)",
+   text="Partial by construction: the static semantics of C, C++, Rust and Java are outside any model here. Lean 4: the C++ interface class names exactly its direct base for every hierarchy depth (after the fix); definition-before-use is refuted (the front end accepts any declaration order, emission follows source order) and holds on dependency-ordered input. "
+        "Checked, not proved: generated accepted file sets are emitted for C, C++ and Rust (stub and skeleton, typed and untyped) and compiled with gcc/g++ and clang/clang++ under upstream's flags together with conforming user units that include stub and skeleton of every file (generated headers including the generated headers of their includes), Rust through rustc in upstream's crate layout, Java (supported subset) through javac against the stand-in API. Six classes of genuine defects are known findings with witnesses; one was repaired (C++ base list at depth >= 3).",
+   note="Trusted: the target compilers as the definition of 'compiles warning-clean'; the bench's generated user units (a mistake there shows up as a compile error and would be reported). " + TB),
  "C12": dict(engine="lean+facts+cli", technique="Lean 4 proof (invariant over the depth-first loader, DFS acyclicity theorem) + differential correspondence on random include graphs with file-system oracle tables",
    text="Lean 4: resolve returns the first match in search order for bare names (with the none-iff characterisation) and resolves paths with a directory part relative to the includer only; "
         "loadAll_ok: whenever the loader succeeds the resolved include graph it built is acyclic (for every hash iteration order), no file was loaded twice and the main file is loaded; a detected cycle is never dropped. "
